@@ -13,11 +13,13 @@ var table = map[string]func(*checks.Run){
 	"C02": checks.C02,
 	"C19": checks.C19,
 	"C20": checks.C20,
+	"C14": checks.C14,
 	"C15": checks.C15,
 	"C16": checks.C16,
 	"C17": checks.C17,
 	"C18": checks.C18,
 	"C03": checks.C03,
+	"C05": checks.C05,
 	"C06": checks.C06,
 	"C09": checks.C09,
 	"C08": checks.C08,
